@@ -139,6 +139,9 @@ func genFormats(c *Ctx) error {
 				sig += "|clean"
 			}
 		}
+		if !(strings.HasSuffix(sig, "|clean") && (kind == "journal" || kind == "wal")) {
+			cs.Do("ref-unknown") // damaged files: what a restart yields is not prescribed, only that it answers
+		}
 		res := do("reopen")
 		c.Count("reopen." + firstWords(res, 2))
 		clean := strings.HasSuffix(sig, "|clean") && (kind == "journal" || kind == "wal")
